@@ -1,6 +1,7 @@
 // C10 — the mempool is always a conflict-free, minable, self-consistent set.
 //
-// Explicit-state BFS over REAL objects: a real blockchain.BlockChain (ffldb on
+// Explicit-state BFS (explore.go, same semantics as verif/engine/bfs) over REAL
+// objects: a real blockchain.BlockChain (ffldb on
 // /dev/shm), a real mempool.TxPool wired to it exactly as server.go does and a real
 // netsync.SyncManager (constructed, never started) whose
 // handleBlockchainNotification is subscribed to the chain, so block connects /
@@ -51,8 +52,13 @@ var (
 	obsAll = map[string]int{}
 )
 
+var stuckNotes []string
+
 func mergeObs(s *c10h.Sys) {
 	obsMu.Lock()
+	if s.StuckNote != "" && len(stuckNotes) < 3 {
+		stuckNotes = append(stuckNotes, s.StuckNote)
+	}
 	for k, v := range s.Obs {
 		obsAll[k] += v
 	}
@@ -365,7 +371,7 @@ func gridSweep(r *ev.Run) {
 					r.Broken("grid verdict flips: %+v: %q vs %q", g, v, v2)
 				}
 			}
-			key := fmt.Sprintf("grid/%s/family=%s/profile=%s/target=%s/seqA=%x/fee=threshold%+d", classOf(v), g.Family, g.Profile, g.Target, g.SeqA, g.Fee-need)
+			key := fmt.Sprintf("grid/%s/replaces=%s/%s", classOf(v), g.Target, g.Call)
 			r.Violation(key, fmt.Sprintf("%+v (absolute-fee threshold %d, fee-rate threshold %d): %s", g, abs, rate, v), replay{Scenario: "grid", Grid: &g})
 		}
 	})
@@ -544,15 +550,29 @@ func racePass(r *ev.Run) {
 		tail = tail[len(tail)-400:]
 	}
 	r.Eval(1)
-	if i := strings.Index(txt, "WARNING: DATA RACE"); i >= 0 {
-		rep := txt[i:]
-		if j := strings.Index(rep, "=================="); j > 0 {
-			rep = rep[:j]
+	// every report: ================== / WARNING: DATA RACE / two access stacks /
+	// goroutine creation stacks / ==================
+	races := 0
+	sites := map[string]int{}
+	for _, blk := range strings.Split(txt, "==================") {
+		if !strings.Contains(blk, "WARNING: DATA RACE") {
+			continue
 		}
+		races++
+		acc := blk
+		if j := strings.Index(acc, "\nGoroutine "); j > 0 {
+			acc = acc[:j] // the two access stacks only, not where the goroutines were created
+		}
+		site := raceSite(acc)
+		sites[site]++
+		if sites[site] > 1 {
+			continue
+		}
+		rep := strings.TrimSpace(blk)
 		if len(rep) > 3000 {
 			rep = rep[:3000]
 		}
-		r.Violation("race/"+raceSite(rep), "data race reported by the free-running -race pass: "+strings.ReplaceAll(rep, "\n", " | "), replay{Scenario: "race", Report: rep})
+		r.Violation("race/"+site, "data race reported by the free-running -race pass: "+strings.ReplaceAll(acc, "\n", " | "), replay{Scenario: "race", Report: rep})
 	}
 	for _, l := range strings.Split(txt, "\n") {
 		if strings.HasPrefix(l, "INVARIANT ") {
@@ -560,17 +580,20 @@ func racePass(r *ev.Run) {
 			r.Violation("race-pass/"+classOf(what), "after the concurrent hammering (all goroutines joined): "+what, replay{Scenario: "race", Report: l})
 		}
 	}
+	if !strings.Contains(txt, "race pass A:") && !strings.Contains(txt, "INVARIANT ") {
+		r.Broken("race pass did not run: %v: %s", err, tail)
+	}
 	if err != nil && !strings.Contains(txt, "WARNING: DATA RACE") && !strings.Contains(txt, "INVARIANT ") {
 		r.Broken("race pass failed: %v: %s", err, tail)
 	}
-	r.Set("race_pass", map[string]interface{}{"rounds": iters, "output_tail": strings.TrimSpace(tail)})
+	r.Set("race_pass", map[string]interface{}{"bursts": iters, "race_reports": races, "sites": sites, "output_tail": strings.TrimSpace(tail)})
 }
 
 // raceSite names the first mempool/netsync/blockchain frame of the report.
 func raceSite(rep string) string {
 	for _, l := range strings.Split(rep, "\n") {
 		l = strings.TrimSpace(l)
-		if strings.HasPrefix(l, "github.com/btcsuite/btcd/") {
+		if strings.HasPrefix(l, "github.com/btcsuite/btcd/") && !strings.Contains(l, "Verif") {
 			f := strings.Fields(l)[0]
 			f = strings.TrimPrefix(f, "github.com/btcsuite/btcd/")
 			if i := strings.Index(f, "()"); i > 0 {
@@ -596,6 +619,7 @@ func main() {
 	r := ev.Start("C10")
 	r.Rule("BFS over histories of {ProcessTransaction(t,allowOrphan T/F), MaybeAcceptTransaction(t), RemoveTransaction(t,redeemers T/F), RemoveDoubleSpends(t), ProcessOrphans(t) for every universe transaction t; mine a block (empty / whole pool / fixed lists, incl. a conflicting and an already-pooled transaction); reorganise to a longer competing branch} on a real TxPool+BlockChain+SyncManager, one BFS per policy; CheckMempoolAcceptance of every universe transaction is probed in every state. A state is distinct by (policy, blocks above the base with their transactions, pool set, orphan set). Plus three grids outside the BFS: replacement fee / fee-rate thresholds +-1 satoshi, the 100/101 eviction limit, a coinbase spend across a reorganisation")
 	r.Assume("ffldb/BlockChain queries (FetchUtxoView, BestSnapshot, CalcSequenceLock, CheckConnectBlockTemplate) do not change chain state: histories without block events run against a shared base chain instance that holds the same blocks a private one would (C03 covers the chain side)")
+	r.Assume("two real systems with the same canonical state (blocks above the base with their transactions, pool set, orphan set) have the same futures - the premise of the BFS's deduplication. The explorer also uses it to save chain constructions: after a history with block events was replayed once, pool-call successors run on a fresh pool attached to that same chain instance, really filled by ProcessTransaction to the same canonical state (verified; otherwise the whole history is replayed); block-event successors always replay the whole history")
 	r.Assume("script semantics and signature checking are C06/C07/C11's subject: most scenarios use anyone-can-spend outputs (AcceptNonStd), the standard-policy scenario uses P2WPKH/P2PKH spends signed with txscript's helpers")
 	r.Assume("RemoveTransaction(t, removeRedeemers=false) is only issued when no pooled transaction spends an output of t (its contract: 't was confirmed'); tags, orphan expiry (15 min wall clock) and the free-transaction rate limiter's decay never come into play within one history")
 	r.Assume("concurrency: every exported TxPool method holds mp.mtx for its whole duration (checked by reading mempool.go: Lock in RemoveOrphan, RemoveOrphansByTag, RemoveTransaction, RemoveDoubleSpends, MaybeAcceptTransaction, ProcessOrphans, ProcessTransaction; RLock in the getters and CheckMempoolAcceptance; LastUpdated is atomic), so interleavings of calls are exactly the sequential orders the BFS enumerates; netsync's per-block sequence of calls is applied atomically here; what the lock does not order is left to the free-running -race pass")
@@ -606,7 +630,7 @@ func main() {
 	base = c10h.NewBase()
 	base.InitPool(runtime.NumCPU() + 4)
 	defer base.DrainPool()
-	worlds["main"] = c10h.MainWorld(base)
+	worlds["main"] = c10h.MainWorld(base, r.Thorough())
 	worlds["std"] = c10h.StdWorld(base)
 
 	if r.ReplayPath != "" {
@@ -617,9 +641,9 @@ func main() {
 		r.Finish(false)
 	}
 
-	budget := 75 * time.Second
+	budget := 120 * time.Second
 	if r.Thorough() {
-		budget = 11 * time.Minute
+		budget = 12 * time.Minute
 	}
 	if v := os.Getenv("C10_DEV_BUDGET"); v != "" { // development aid only
 		if d, err := time.ParseDuration(v); err == nil {
@@ -642,9 +666,9 @@ func main() {
 		}
 	} else {
 		cfgs = []bfsCfg{
-			{"main", "default", 4, 3}, {"main", "nopriority", 3, 2}, {"main", "rejectrbf", 3, 2},
+			{"main", "default", 4, 2}, {"main", "nopriority", 3, 1}, {"main", "rejectrbf", 3, 1},
 			{"main", "orphans0", 3, 1}, {"main", "orphans1", 3, 1}, {"main", "orphans2", 3, 1},
-			{"std", "standard", 4, 2}, {"std", "std-orphan1", 3, 1},
+			{"std", "standard", 3, 1}, {"std", "std-orphan1", 3, 1},
 		}
 	}
 	per := map[string]interface{}{}
@@ -673,6 +697,9 @@ func main() {
 	}
 	obsMu.Unlock()
 	r.Set("observations_outside_the_property", obs)
+	if len(stuckNotes) > 0 {
+		r.Set("observation_orphan_left_behind_samples", stuckNotes)
+	}
 	var names []string
 	for _, t := range worlds["main"].Txs {
 		names = append(names, fmt.Sprintf("%s(fee=%d,vsize=%d)", t.Ref.Name, t.Ref.Fee, t.Ref.VSize()))
